@@ -63,6 +63,8 @@ def translate_and_prove(pid, log):
         cls = CLASS_OF[v]
         c = info.get("classes", {}).get(cls)
         r = {"class": cls, "translated": (c or {}).get("translated", []), "module": "Cvss.Props.CodeTie" + v}
+        r["modules"] = [r["module"]] + ([r["module"] + "Final"] if os.path.exists(
+            os.path.join(LEAN, "Cvss", "Props", "CodeTie%sFinal.lean" % v)) else [])
         if c is None:
             r.update(status="untranslated", detail="translator did not run: " + str(info.get("crash", ""))[:300])
         elif c["untranslated"]:
@@ -70,7 +72,7 @@ def translate_and_prove(pid, log):
         elif rc_drv != 0:
             r.update(status="untranslated", detail="the translation does not elaborate: " + out_drv[-500:])
         else:
-            rc, o = _sh(["lake", "build", r["module"]], cwd=LEAN)
+            rc, o = _sh(["lake", "build"] + r["modules"], cwd=LEAN)
             if rc == 0:
                 r.update(status="kernel-checked", detail="")
             else:
